@@ -8,6 +8,7 @@ import (
 	"github.com/KevoDB/kevo/pkg/common/iterator"
 	"github.com/KevoDB/kevo/pkg/common/iterator/bounded"
 	"github.com/KevoDB/kevo/pkg/common/iterator/composite"
+	"github.com/KevoDB/kevo/pkg/verifhook"
 	"github.com/KevoDB/kevo/pkg/wal"
 )
 
@@ -260,13 +261,16 @@ func (tx *TransactionImpl) Commit() error {
 			}
 		}
 
+		verifhook.At("tx.commit.before_apply")
 		// Apply the batch atomically
 		err = tx.storage.ApplyBatch(walBatch)
 	}
 
+	verifhook.At("tx.commit.after_apply")
 	// Release the write lock
 	tx.releaseWriteLock()
 
+	verifhook.At("tx.commit.after_unlock")
 	// Track transaction completion
 	if tx.stats != nil {
 		tx.stats.IncrementTxCompleted()
